@@ -14,6 +14,7 @@
 #pragma once
 
 #include <pistache/typeid.h>
+#include <pistache/verif_sim.h>
 
 #include <atomic>
 #include <condition_variable>
@@ -256,6 +257,7 @@ namespace Pistache::Async
 
                 new (mem) T(std::forward<Args>(args)...);
                 allocated = true;
+                PISTACHE_SIM_POINT("promise.construct.state", this);
                 state     = State::Fulfilled;
             }
 
@@ -348,8 +350,10 @@ namespace Pistache::Async
                 }
                 catch (const InternalRethrow& e)
                 {
+                    PISTACHE_SIM_POINT("promise.rethrow.settle", chain_.get());
                     chain_->exc   = e.exc;
                     chain_->state = State::Rejected;
+                    PISTACHE_SIM_POINT("promise.rethrow.walk", chain_.get());
                     for (const auto& req : chain_->requests)
                     {
                         req->reject(chain_);
@@ -433,6 +437,7 @@ namespace Pistache::Async
                 void doReject(const std::shared_ptr<CoreT<T>>& core) override
                 {
                     reject_(core->exc);
+                    PISTACHE_SIM_POINT("promise.doReject.walk", this->chain_.get());
                     for (const auto& req : this->chain_->requests)
                     {
                         req->reject(this->chain_);
@@ -443,7 +448,9 @@ namespace Pistache::Async
                 void finishResolve(Ret&& ret) const
                 {
                     typedef typename std::decay<Ret>::type CleanRet;
+                    PISTACHE_SIM_POINT("promise.finishResolve.construct", this->chain_.get());
                     this->chain_->template construct<CleanRet>(std::forward<Ret>(ret));
+                    PISTACHE_SIM_POINT("promise.finishResolve.walk", this->chain_.get());
                     for (const auto& req : this->chain_->requests)
                     {
                         req->resolve(this->chain_);
@@ -478,6 +485,7 @@ namespace Pistache::Async
                 void doReject(const std::shared_ptr<CoreT<void>>& core) override
                 {
                     reject_(core->exc);
+                    PISTACHE_SIM_POINT("promise.doReject.walk", this->chain_.get());
                     for (const auto& req : this->chain_->requests)
                     {
                         req->reject(this->chain_);
@@ -488,7 +496,9 @@ namespace Pistache::Async
                 void finishResolve(Ret&& ret) const
                 {
                     typedef typename std::remove_reference<Ret>::type CleanRet;
+                    PISTACHE_SIM_POINT("promise.finishResolve.construct", this->chain_.get());
                     this->chain_->template construct<CleanRet>(std::forward<Ret>(ret));
+                    PISTACHE_SIM_POINT("promise.finishResolve.walk", this->chain_.get());
                     for (const auto& req : this->chain_->requests)
                     {
                         req->resolve(this->chain_);
@@ -609,7 +619,9 @@ namespace Pistache::Async
 
                     void operator()(const PromiseType& val)
                     {
+                        PISTACHE_SIM_POINT("promise.chainer.construct", chainCore.get());
                         chainCore->construct<PromiseType>(val);
+                        PISTACHE_SIM_POINT("promise.chainer.walk", chainCore.get());
                         for (const auto& req : chainCore->requests)
                         {
                             req->resolve(chainCore);
@@ -634,6 +646,7 @@ namespace Pistache::Async
                     promise.then(std::move(chainer), [weakPtr](std::exception_ptr exc) {
                         if (auto core = weakPtr.lock())
                         {
+                            PISTACHE_SIM_POINT("promise.chainer.reject", core.get());
                             core->exc   = std::move(exc);
                             core->state = State::Rejected;
 
@@ -689,7 +702,9 @@ namespace Pistache::Async
 
                     void operator()(const PromiseType& val)
                     {
+                        PISTACHE_SIM_POINT("promise.chainer.construct", chainCore.get());
                         chainCore->construct<PromiseType>(val);
+                        PISTACHE_SIM_POINT("promise.chainer.walk", chainCore.get());
                         for (const auto& req : chainCore->requests)
                         {
                             req->resolve(chainCore);
@@ -733,6 +748,7 @@ namespace Pistache::Async
                     auto chainer = makeChainer(promise);
                     promise.then(std::move(chainer), [=](std::exception_ptr exc) {
                         auto core   = this->chain_;
+                        PISTACHE_SIM_POINT("promise.chainer.reject", core.get());
                         core->exc   = std::move(exc);
                         core->state = State::Rejected;
 
@@ -837,6 +853,7 @@ namespace Pistache::Async
 
             typedef typename std::remove_reference<Arg>::type Type;
 
+            PISTACHE_SIM_POINT("promise.resolve.check", core_.get());
             if (core_->state != State::Pending)
                 throw Error("Attempt to resolve a fulfilled promise");
 
@@ -852,6 +869,7 @@ namespace Pistache::Async
             std::unique_lock<std::mutex> guard(core_->mtx);
             core_->construct<Type>(std::forward<Arg>(arg));
 
+            PISTACHE_SIM_POINT("promise.resolve.walk", core_.get());
             for (const auto& req : core_->requests)
             {
                 req->resolve(core_);
@@ -865,6 +883,7 @@ namespace Pistache::Async
             if (!core_)
                 return false;
 
+            PISTACHE_SIM_POINT("promise.resolve.check", core_.get());
             if (core_->state != State::Pending)
                 throw Error("Attempt to resolve a fulfilled promise");
 
@@ -872,7 +891,9 @@ namespace Pistache::Async
                 throw Error("Attempt ro resolve a non-void promise with no argument");
 
             std::unique_lock<std::mutex> guard(core_->mtx);
+            PISTACHE_SIM_POINT("promise.resolve.state", core_.get());
             core_->state = State::Fulfilled;
+            PISTACHE_SIM_POINT("promise.resolve.walk", core_.get());
             for (const auto& req : core_->requests)
             {
                 req->resolve(core_);
@@ -908,12 +929,15 @@ namespace Pistache::Async
             if (!core_)
                 return false;
 
+            PISTACHE_SIM_POINT("promise.reject.check", core_.get());
             if (core_->state != State::Pending)
                 throw Error("Attempt to reject a fulfilled promise");
 
             std::unique_lock<std::mutex> guard(core_->mtx);
+            PISTACHE_SIM_POINT("promise.reject.state", core_.get());
             core_->exc   = std::make_exception_ptr(exc);
             core_->state = State::Rejected;
+            PISTACHE_SIM_POINT("promise.reject.walk", core_.get());
             for (const auto& req : core_->requests)
             {
                 req->reject(core_);
@@ -1119,6 +1143,7 @@ namespace Pistache::Async
             std::shared_ptr<Private::Request> req = std::make_shared<Continuation>(promise.core_, resolveFunc, rejectFunc);
 
             std::unique_lock<std::mutex> guard(core_->mtx);
+            PISTACHE_SIM_POINT("promise.then.check", core_.get());
             if (isFulfilled())
             {
                 req->resolve(core_);
@@ -1128,6 +1153,7 @@ namespace Pistache::Async
                 req->reject(core_);
             }
 
+            PISTACHE_SIM_POINT("promise.then.push", core_.get());
             core_->requests.push_back(req);
 
             return promise;
